@@ -38,12 +38,16 @@ impl BinaryHeader {
     }
 
     pub fn write_to<W: Write>(&self, mut w: W) -> std::io::Result<()> {
-        w.write_all(&self.magic)?;
-        w.write_all(&self.version.to_le_bytes())?;
-        w.write_all(&self.flags.to_le_bytes())?;
-        w.write_all(&self.reserved.to_le_bytes())?;
-        w.write_all(&self.header_crc32.to_le_bytes())?;
-        Ok(())
+        // One write for the whole header: written field by field, a process crash between two of
+        // the writes left a partial header behind, which every later open rejects (a store whose
+        // schema file got a torn header could not be started any more).
+        let mut buf = [0u8; Self::TOTAL_LEN];
+        buf[0..8].copy_from_slice(&self.magic);
+        buf[8..10].copy_from_slice(&self.version.to_le_bytes());
+        buf[10..12].copy_from_slice(&self.flags.to_le_bytes());
+        buf[12..16].copy_from_slice(&self.reserved.to_le_bytes());
+        buf[16..20].copy_from_slice(&self.header_crc32.to_le_bytes());
+        w.write_all(&buf)
     }
 
     pub fn read_from<R: Read>(mut r: R) -> std::io::Result<Self> {
